@@ -3,7 +3,9 @@
 Families:
   conv    pubo_to_puso / puso_to_pubo / qubo_to_quso / quso_to_qubo on all ten model types and raw dicts
   meth    to_qubo / to_quso / to_pubo / to_puso / to_enumerated of the six labelled types (no degree reduction)
-  sol     convert_solution with dict / list / tuple x boolean / spin x flag (+ malformed stream)
+  sol     convert_solution with dict / list / tuple x boolean / spin x flag (+ malformed stream); 35% of the solutions spell
+          their entries 0 / 1 / -1 as bool, numpy int64 / int8 / bool_ / float32, Fraction, Decimal, sympy Integer or a mix
+          (what boolean_to_spin / spin_to_boolean accept inside a container: they look each entry up by value)
   isspin  is_solution_spin
   export  Q, h, J, matrix_to_qubo, qubo_to_matrix (+ round trips) on dyadic values; the matrices / QUBO coefficients of
           matrix_to_qubo and qubo_to_matrix in ten number types (int, float, Fraction, Python bool, numpy bool_, int64,
@@ -422,6 +424,11 @@ def sol_case(rng, malformed=False):
     c = {"family": "sol", "kind": kind, "n": n, "p": p, "labels": rng.choice(Labels.STYLES_X), "num": "int",
          "refresh": refresh, "form": form, "vals": vals, "flag": flag, "container": container,
          "valtype": rng.choice(["int", "int", "float"]) if all_dyadic(p) else "int"}
+    if rng.random() < 0.35:
+        # the number type the entries of the solution are spelled in: convert_solution hands the container to
+        # boolean_to_spin / spin_to_boolean, which look every entry up by value (==, hash) — measured on /repo: every
+        # hashable number equal to 0 / 1 / -1 is accepted inside a dict, list or tuple
+        c["valtype"] = rng.choice(SOL_VALTYPES)
     if container == "dict":
         order = list(range(length)); rng.shuffle(order)
         c["order"] = order
@@ -442,9 +449,34 @@ def sol_case(rng, malformed=False):
     return c
 
 
+SOL_VALTYPES = ("bool", "npint64", "npint8", "npbool", "npfloat32", "Fraction", "Decimal", "sympy", "mixed")
+
+def sol_entry(v, ty, pos=0):
+    """the integer v as a number of type ty (bool types only spell 0 / 1; anything else stays as it is)"""
+    if ty == "float":
+        return float(v)
+    if ty == "int" or v not in (0, 1, -1):
+        return int(v)
+    if ty == "mixed":
+        ty = SOL_VALTYPES[(pos * 5 + v + 1) % (len(SOL_VALTYPES) - 1)]
+    if ty == "bool":
+        return bool(v) if v >= 0 else int(v)
+    if ty == "Fraction":
+        return Fraction(v)
+    if ty == "Decimal":
+        import decimal
+        return decimal.Decimal(v)
+    if ty == "sympy":
+        import sympy
+        return sympy.Integer(v)
+    import numpy as np
+    if ty == "npbool":
+        return np.bool_(v) if v >= 0 else np.int64(v)
+    return {"npint64": np.int64, "npint8": np.int8, "npfloat32": np.float32}[ty](v)
+
+
 def sol_container(c):
-    cast = float if c["valtype"] == "float" else int
-    vals = [cast(v) for v in c["vals"]]
+    vals = [sol_entry(v, c["valtype"], i) for i, v in enumerate(c["vals"])]
     if c["container"] == "dict":
         return {i: vals[i] for i in c["order"]}
     return vals if c["container"] == "list" else tuple(vals)
@@ -518,7 +550,9 @@ def sol_oracle(c, canon, r, st):
     own = [Fraction((1 - 2 * b) if spin_model else b) for b in bits]
     E = M.to_enumerated()
     want = obj_value(E.items(), dict(enumerate(own)))
-    got = Fraction(M.value(r))
+    # (entries that came through unconverted keep the caller's number type; the clause is about the assignment, so the
+    # evaluation reads them by value — Decimal x Fraction arithmetic inside `value` is not what convert_solution promises)
+    got = Fraction(fs(M.value({k: (int(v) if v == int(v) else v) for k, v in r.items()})))
     if got != want:
         return "M.value(M.convert_solution(s)) = %s but the enumerated model gives %s at s = %s" % (got, want, own)
     return None
